@@ -74,7 +74,10 @@ func NewHierarchicalConjunctiveThresholdAccessStructure(levels ...*ThresholdLeve
 			return nil, ErrValue.WithMessage("thresholds must be less than or equal to the number of parties")
 		}
 
-		ls = append(ls, &ThresholdLevel{l.threshold, parties.List()})
+		// hash-set iteration order is random: keep the parties sorted so that equal structures encode identically
+		levelParties := parties.List()
+		slices.Sort(levelParties)
+		ls = append(ls, &ThresholdLevel{l.threshold, levelParties})
 	}
 
 	h := &HierarchicalConjunctiveThreshold{levels: ls}
